@@ -329,8 +329,45 @@ def c10f(ctx):
             ctx.fail(o, "(signature)", "WriteManager::submit_write_batch takes the batch by reference")
 
 
+def c10h(ctx):
+    """`expected_epoch` is the committer's position in creation order.  It starts at the first epoch and moves by exactly one,
+    in process_pending_commits, each time the batch of that epoch has been applied.  Any other write to it (taking it from
+    an arriving task, resetting it) lets a batch that was created later be applied before an earlier one whose serializer
+    is still running - arrival order is submission order, not creation order."""
+    prog = ctx.prog
+    o = ctx.ob("C10.h", "expected_epoch/only-advanced-by-one-after-applying", "K3", "CurrentBatch.expected_epoch is assigned only by its constructor and by the increment in process_pending_commits")
+    n = 0
+    for b in prog.all_bodies(["qbice_storage"]):
+        for bi, blk in enumerate(b.blocks):
+            if blk["cleanup"]:
+                continue
+            for si, st in enumerate(blk["stmts"]):
+                if st["k"] != "assign" or not any(str(e).startswith("f:expected_epoch#") for e in st["lhs"][1]):
+                    continue
+                n += 1
+                ctx.touch(b)
+                site = Site(b, bi, si)
+                if b.name != "WriteBehind::process_pending_commits":
+                    ctx.fail(o, site, "%s writes CurrentBatch.expected_epoch: only process_pending_commits may advance it, by one, after the expected batch was applied - taking the "
+                             "position from anything else lets a later-created batch overtake an earlier one that is still being serialized" % b.name)
+                    continue
+                # the value is expected_epoch + 1
+                ok = False
+                for x in df.origins_of_operand(b, st["rv"].get("op", {})) if st["rv"]["k"] == "use" else []:
+                    pass
+                src = op_local(st["rv"].get("op", {})) if st["rv"]["k"] == "use" else None
+                for _s, dk, dn in (b.defs.get(src) or []):
+                    if dk == "assign" and dn["rv"].get("k") == "bin" and dn["rv"]["op"] in ("Add", "AddWithOverflow") and const_int(dn["rv"]["b"]) == 1:
+                        ok = True
+                if not ok:
+                    ctx.fail(o, site, "process_pending_commits assigns expected_epoch something other than `expected_epoch + 1`")
+    o.sites = n
+    if n < 1:
+        ctx.fail(o, "(program)", "anchor missing: no assignment to CurrentBatch.expected_epoch found")
+
+
 def run(ctx):
-    for c, f in (("C10.a", c10a), ("C10.b", c10b), ("C10.c", c10c), ("C10.d", c10d), ("C10.e", c10e), ("C10.f", c10f)):
+    for c, f in (("C10.a", c10a), ("C10.b", c10b), ("C10.c", c10c), ("C10.d", c10d), ("C10.e", c10e), ("C10.f", c10f), ("C10.h", c10h)):
         ctx.run_clause(c, f)
     # "reaches the backing store exactly once": the last hop is the backend's WriteBatch::commit - exactly one store write on
     # every path, outside any loop (C08.d's rule, with its WAL/atomic-flush pairing C08.e), evaluated here as C10.g
